@@ -5,6 +5,8 @@ import Model.C13.Shamir
 import Model.C13.Bits
 import Model.C13.Bip39
 import Model.C13.Slip39
+import Model.C13.Generate
+import Model.C13.Dispatch
 import Generated.Slip39
 import Generated.Mnemonic
 open Btc Btc.C13
@@ -176,6 +178,47 @@ def handle (toks : List String) : String :=
       | some b => "ok " ++ showBits b
       | none => "err value"
     | _, _ => "bad-op"
+  | ["dispatch.all", _lang, slip, el, nwords, known, idx, _sentence] =>
+    match bool? slip, nwords.toNat?, bool? known, natList? idx with
+    | some slip, some nw, some known, some idx =>
+      let b := bip39SeedType sha256 nw known idx
+      let all := allSeedTypes slip (if el == "-" then none else some el) b
+      s!"ok {if b.isEmpty then "-" else b} {if all.isEmpty then "-" else ",".intercalate all} " ++
+        (let t := seedType slip (if el == "-" then none else some el) b; if t.isEmpty then "-" else t)
+    | _, _, _, _ => "bad-op"
+  | "slip39.generate" :: _secret :: _pw :: id :: ext :: e :: gt :: groups :: ems :: groupRp :: rest =>
+    -- rest: one token per group-level random share, then per group `rp|rnd,rnd,…` (rp first)
+    match id.toNat?, bool? ext, e.toNat?, gt.toNat?, natList? groups, fromHex? ems, fromHex? groupRp with
+    | some id, some ext, some e, some gt, some gl, some ems, some grp =>
+      let rec pairs : List Nat → List (Nat × Nat)
+        | a :: b :: r => (a, b) :: pairs r
+        | _ => []
+      let groups := pairs gl
+      -- entry check of `mnemonics_from_master_secret`: a 1-of-N group with N > 1 is refused
+      if groups.any (fun g => g.1 = 1 ∧ g.2 > 1) then "err value" else
+      let nGroupRnd := rest.length - groups.length
+      let groupRnd := (rest.take nGroupRnd).mapM fromHex?
+      let members := (rest.drop nGroupRnd).mapM fun tok =>
+        match tok.splitOn "|" with
+        | [rp, rnd] => do
+          let rp ← fromHex? rp
+          let rnd ← if rnd == "" then some [] else (rnd.splitOn ",").mapM fromHex?
+          some (rp, rnd)
+        | _ => none
+      match groupRnd, members with
+      | some groupRnd, some members =>
+        let mRnd := fun g => ((members.getD g ([], [])).2).map gfVec
+        let mRp := fun g => gfVec (members.getD g ([], [])).1
+        match makeShares gf256Ops (digestGF hmac256) id ext e gt groups (gfVec ems) (groupRnd.map gfVec) (gfVec grp)
+            mRnd mRp with
+        | .error _ => "err value"
+        | .ok table =>
+          let enc := table.map fun row => row.map fun sh =>
+            shareIndexes { sh with value := gfBytes sh.value }
+          if enc.any (·.any (·.isNone)) then "err value" else
+          "ok " ++ ";".intercalate (enc.map fun row => "/".intercalate (row.map fun i => showNats (i.getD [])))
+      | _, _ => "bad-op"
+    | _, _, _, _, _, _, _ => "bad-op"
   | ["bip85.entropy", key, _xprv, _path] =>
     match fromHex? key with
     | some k => "ok " ++ toHex (bip85Entropy hmacSha512 k)
